@@ -361,6 +361,34 @@ theorem checker_pins_end_entity (fpf : Cert → Bytes) (fp : Bytes) (isClient : 
     rw [heq.1]; exact hfp
   · intro h; exact ⟨c, rest, rfl, h⟩
 
+/-- **A Checker that demands a certificate property cannot be satisfied without an authenticated
+    chain.**  The check is skipped only for a connection reported as resumed (and only with
+    `checkResumedSession = False`); certificate, external-PSK, SRP and anonymous handshakes are never
+    reported as resumed (`resumedOf`, `resuming13` for an external PSK choice).  Hence in those
+    modes a handshake that leaves no peer chain in the session — an external-PSK-only or SRP or
+    anonymous peer — makes the call with `Checker(x509Fingerprint=…)` fail. -/
+theorem checker_fails_without_authenticated_chain (certFp : Cert → Bytes) (fp : Bytes) (cr isClient : Bool)
+    (mode : AuthMode) (hmode : mode = .cert ∨ mode = .extPsk ∨ mode = .srp ∨ mode = .anon)
+    (o : Outcome) (sess : Session) (hs : o.session = some sess)
+    (hnone : (if isClient then sess.serverCertChain else sess.clientCertChain) = []) :
+    (wrapperR certFp (some (fp, cr)) isClient (resumedOf mode) o).completed = false := by
+  have hr : resumedOf mode = false := by
+    rcases hmode with h | h | h | h <;> subst h <;> rfl
+  rw [hr, wrapperR_not_resumed]
+  exact wrapper_no_chain certFp fp isClient o sess hs hnone
+
+/-- with `checkResumedSession = True` the same holds for resumed connections -/
+theorem checker_checks_resumed_when_asked (certFp : Cert → Bytes) (fp : Bytes) (isClient resumed : Bool)
+    (o : Outcome) (sess : Session) (hs : o.session = some sess)
+    (hnone : (if isClient then sess.serverCertChain else sess.clientCertChain) = []) :
+    (wrapperR certFp (some (fp, true)) isClient resumed o).completed = false := by
+  rw [wrapperR_checkResumed]
+  exact wrapper_no_chain certFp fp isClient o sess hs hnone
+
+/-- an external PSK never makes the TLS 1.3 server report a resumption -/
+theorem external_psk_not_resumed (c : PskChoice) (h : c.external = true) : resuming13 (some c) = false :=
+  resuming13_external c h
+
 /-- conversely a wrapped call that completes has passed the checker on the recorded chain -/
 theorem checker_pass_means_match (fpf : Cert → Bytes) (fp : Bytes) (isClient : Bool) (o : Outcome)
     (h : (wrapper fpf (some fp) isClient o).completed = true) :
